@@ -11,6 +11,7 @@ import (
 	_ "net/http/pprof"
 	"os"
 	"os/signal"
+	"regexp"
 	"runtime"
 	"runtime/pprof"
 	"syscall"
@@ -67,25 +68,41 @@ func readConfigFile(config_file string) string {
 		log.Fatalf("Couldn't read config file %q: %s", config_file, err.Error())
 	}
 
-	return os.Expand(string(data), expandVars)
+	return expandConfig(string(data))
 
 }
 
-func expandVars(in string) (out string) {
+// configVarRe matches $NAME and ${NAME}
+var configVarRe = regexp.MustCompile(`\$(\{[A-Za-z0-9_]+\}|[A-Za-z0-9_]+)`)
+
+// expandConfig substitutes the documented variables ($HOST, $GRAFANA_NET_ADDR, $GRAFANA_NET_API_KEY,
+// $GRAFANA_NET_USER_ID, with or without braces) and leaves every other '$' sequence exactly as it is,
+// in particular the $1 / ${1} group references of rewriter and aggregation templates.
+func expandConfig(in string) string {
+	return configVarRe.ReplaceAllStringFunc(in, func(ref string) string {
+		name := strings.Trim(ref[1:], "{}")
+		if val, ok := expandVars(name); ok {
+			return val
+		}
+		return ref
+	})
+}
+
+func expandVars(in string) (out string, ok bool) {
 	switch in {
 	case "HOST":
 		hostname, _ := os.Hostname()
 		// in case hostname is an fqdn or has dots, only take first part
 		parts := strings.SplitN(hostname, ".", 2)
-		return parts[0]
+		return parts[0], true
 	case "GRAFANA_NET_ADDR":
-		return os.Getenv("GRAFANA_NET_ADDR")
+		return os.Getenv("GRAFANA_NET_ADDR"), true
 	case "GRAFANA_NET_API_KEY":
-		return os.Getenv("GRAFANA_NET_API_KEY")
+		return os.Getenv("GRAFANA_NET_API_KEY"), true
 	case "GRAFANA_NET_USER_ID":
-		return os.Getenv("GRAFANA_NET_USER_ID")
+		return os.Getenv("GRAFANA_NET_USER_ID"), true
 	default:
-		return "$" + in
+		return "", false
 	}
 }
 
